@@ -332,6 +332,9 @@ func (b *V1) Delete(c, t string, key Item, w WriteArgs) *Resp {
 		if w.Retold {
 			in.ReturnValues = aws.String("ALL_OLD")
 		}
+		if w.RetVals != "" {
+			in.ReturnValues = aws.String(w.RetVals)
+		}
 		out, err := b.cs[c].DeleteItemWithContext(bgv1, in)
 		r := b.errResp(err)
 		if err == nil && out != nil {
